@@ -45,15 +45,15 @@ func (r *RewardRecorder) pay(cat string, vs ...*big.Int) {
 	r.Payments[cat]++
 }
 
-func (r *RewardRecorder) SetTotalReward(a *big.Int)                    { r.Total = new(big.Int).Set(a) }
-func (r *RewardRecorder) SetTotalStakingReward(a, share *big.Int)      { r.allot("staking", a) }
-func (r *RewardRecorder) SetTotalCandidateReward(a, share *big.Int)    { r.allot("candidate", a) }
-func (r *RewardRecorder) SetTotalFlipsBasicReward(a, share *big.Int)   { r.allot("flips_basic", a) }
-func (r *RewardRecorder) SetTotalFlipsExtraReward(a, share *big.Int)   { r.allot("flips_extra", a) }
-func (r *RewardRecorder) SetTotalReportsReward(a, share *big.Int)      { r.allot("reports", a) }
-func (r *RewardRecorder) SetTotalInvitationsReward(a, share *big.Int)  { r.allot("invitations", a) }
-func (r *RewardRecorder) SetTotalFoundationPayouts(a *big.Int)         { r.allot("foundation", a) }
-func (r *RewardRecorder) SetTotalZeroWalletFund(a *big.Int)            { r.allot("zero_wallet", a) }
+func (r *RewardRecorder) SetTotalReward(a *big.Int)                   { r.Total = new(big.Int).Set(a) }
+func (r *RewardRecorder) SetTotalStakingReward(a, share *big.Int)     { r.allot("staking", a) }
+func (r *RewardRecorder) SetTotalCandidateReward(a, share *big.Int)   { r.allot("candidate", a) }
+func (r *RewardRecorder) SetTotalFlipsBasicReward(a, share *big.Int)  { r.allot("flips_basic", a) }
+func (r *RewardRecorder) SetTotalFlipsExtraReward(a, share *big.Int)  { r.allot("flips_extra", a) }
+func (r *RewardRecorder) SetTotalReportsReward(a, share *big.Int)     { r.allot("reports", a) }
+func (r *RewardRecorder) SetTotalInvitationsReward(a, share *big.Int) { r.allot("invitations", a) }
+func (r *RewardRecorder) SetTotalFoundationPayouts(a *big.Int)        { r.allot("foundation", a) }
+func (r *RewardRecorder) SetTotalZeroWalletFund(a *big.Int)           { r.allot("zero_wallet", a) }
 func (r *RewardRecorder) AddCandidateReward(b, s common.Address, balance, stake *big.Int) {
 	r.pay("candidate", balance, stake)
 }
@@ -75,8 +75,12 @@ func (r *RewardRecorder) AddInvitationsReward(b, s common.Address, balance, stak
 func (r *RewardRecorder) AddInviteeReward(a common.Address, stake *big.Int, age uint16, tx common.Hash, eh uint32) {
 	r.pay("invitations", stake)
 }
-func (r *RewardRecorder) AddFoundationPayout(a common.Address, balance *big.Int) { r.pay("foundation", balance) }
-func (r *RewardRecorder) AddZeroWalletFund(a common.Address, balance *big.Int)   { r.pay("zero_wallet", balance) }
+func (r *RewardRecorder) AddFoundationPayout(a common.Address, balance *big.Int) {
+	r.pay("foundation", balance)
+}
+func (r *RewardRecorder) AddZeroWalletFund(a common.Address, balance *big.Int) {
+	r.pay("zero_wallet", balance)
+}
 func (r *RewardRecorder) AddProposerReward(b, s common.Address, balance, stake *big.Int, w *big.Float) {
 	r.Proposer.Add(r.Proposer, balance)
 	r.Proposer.Add(r.Proposer, stake)
